@@ -6,7 +6,7 @@
 set -e
 HERE="$(cd "$(dirname "$0")" && pwd)"
 REPO="${VERIF_REPO:-/repo}"
-OUT="$(dirname "$HERE")/.build/cpp"
+OUT="${VERIF_CPP_OUT:-$(dirname "$HERE")/.build/cpp}"
 mkdir -p "$OUT/include"
 export CARGO_NET_OFFLINE=true
 ( cd "$REPO/cpp" && RESOLVO_GENERATED_INCLUDE_DIR="$OUT/include" \
